@@ -261,8 +261,26 @@ fn collect_fields(src: &J) -> Vec<String> {
     cond(&src["cond"], &mut out);
     out.sort();
     out.dedup();
-    out.retain(|f| !f.is_empty() && !f.contains('[') && f.split('.').all(|s| !s.is_empty()));
+    out.retain(|f| !f.is_empty() && f.split('.').all(|s| !s.is_empty()));
     out
+}
+
+/// for an indexed first segment name[i]: arrays of exactly i, i + 1 and 0 elements (the boundary of
+/// the index), as documents of their own
+fn indexed_docs(fields: &[String]) -> Vec<J> {
+    let mut docs = vec![];
+    for f in fields {
+        let first = f.split('.').next().unwrap_or("");
+        if let (Some(p), true) = (first.find('['), first.ends_with(']')) {
+            let name = &first[..p];
+            let idx: usize = first[p + 1..first.len() - 1].parse().unwrap_or(0);
+            for len in [idx, idx + 1, 0] {
+                let vs: Vec<J> = (0..len).map(|_| json!({"t":"S","s":cps("x")})).collect();
+                docs.push(json!({"t":"O","kv":[[cps(name), {"t":"A","vs":vs}]]}));
+            }
+        }
+    }
+    docs
 }
 
 fn nest(path: &str, v: J) -> (String, J) {
@@ -276,7 +294,9 @@ fn nest(path: &str, v: J) -> (String, J) {
 }
 
 pub fn adversarial_docs(src: &J) -> Vec<J> {
-    let fields = collect_fields(src);
+    let all_fields = collect_fields(src);
+    let extra = indexed_docs(&all_fields);
+    let fields: Vec<String> = all_fields.into_iter().filter(|f| !f.contains('[')).collect();
     let s = |x: &str| json!({"t":"S","s":cps(x)});
     let i = |neg: bool, d: &str| json!({"t":"I","neg":neg,"d":digits(d)});
     let kinds: Vec<J> = vec![
@@ -329,7 +349,10 @@ pub fn adversarial_docs(src: &J) -> Vec<J> {
         }
         docs.push(json!({"t":"O","kv":kv.iter().map(|(k, v)| json!([cps(k), v])).collect::<Vec<_>>()}));
     }
-    docs
+    // the index-boundary documents first, so that a small `adv: n` still includes them
+    let mut out = extra;
+    out.extend(docs);
+    out
 }
 
 // ---------------------------------------------------------------------------------------------
